@@ -44,6 +44,18 @@ var c05Files = ref.Files{
 	"trailing":      "foo  \nselect \n",    // white space at the end of an entry is part of the entry, also on the last line
 	"trailingnonl":  "\n\nfoo\nselect\t ",  // ... and without a final newline, after leading blank lines
 	"trailingblank": "foo \nbar\n\n  \n\n", // blank lines at the end of the file
+	// a file with its own prefix / suffix that begins and ends with files that have their own
+	"pair":  "##!^ <\n##!$ >\n##!> include presuf\n##!> include pre\n",
+	"mixed": "##!^ <\n##!> include presuf\nmid\n##!> include suf\n",
+	"inner": "##!$ >\n##!> include presuf\n",
+}
+
+func c05Big() string {
+	var sb strings.Builder
+	for i := 0; i < 900; i++ {
+		fmt.Fprintf(&sb, "w%04dxxxxxxxxxxxxxxxx\n", i)
+	}
+	return sb.String()
 }
 
 func c05Tree() core.Tree {
@@ -357,6 +369,38 @@ func C05(r *core.Run) {
 	for _, d := range deaths {
 		r.HarnessError("worker %s/%d %s on %q: %s", d.Stage, d.Shard, d.Kind, d.Case, tailStr(d.Log, 300))
 	}
+	// an include file with more text than a reader may think of as large (19 800 bytes, 900 entries), and a small
+	// control: the including program and the typed-in program must print the same bytes, at every position
+	bigRuns := 0
+	{
+		wd := filepath.Join(dir, "big")
+		t := c05Tree()
+		t["regex-assembly/include/big.ra"] = c05Big()
+		t["regex-assembly/include/bigpre.ra"] = "##!^ p+\n" + c05Big()
+		t["regex-assembly/include/nestbig.ra"] = "first\n##!> include big\nlast\n"
+		t.Materialise(wd)
+		files := c05ModelFiles()
+		files["big"], files["bigpre"], files["nestbig"] = t["regex-assembly/include/big.ra"], t["regex-assembly/include/bigpre.ra"], t["regex-assembly/include/nestbig.ra"]
+		for _, name := range []string{"big", "bigpre", "nestbig"} {
+			inl, err := ref.Inline(files, name, 0)
+			if err != nil {
+				r.HarnessError("reference cannot inline %s: %v", name, err)
+				continue
+			}
+			for pos := 0; pos < 8; pos++ {
+				c := c05Case{File: name, Pos: pos}
+				a, b := c.build(inl.Block())
+				ra := core.RunCLI(r.Crs, wd, a, nil, "-d", wd, "regex", "generate", "-")
+				rb := core.RunCLI(r.Crs, wd, b, nil, "-d", wd, "regex", "generate", "-")
+				bigRuns += 2
+				if cliClass(ra) != cliClass(rb) {
+					r.Report(core.Violation{Clause: "include-equals-inline", Key: fmt.Sprintf("file=%s position=%d", name, pos),
+						What: fmt.Sprintf("including %s.ra (%d bytes) at position %d gives %s, its lines typed in place give %s", name, len(files[name]), pos, clip([]string{cliClass(ra)}, 160), clip([]string{cliClass(rb)}, 160))})
+				}
+			}
+		}
+	}
+	r.Cov["large_include_files_x_positions_through_cli"] = bigRuns
 	validated := 0
 	startSeen := 0
 	for _, c := range conf {
